@@ -82,11 +82,18 @@ def cmd_new(prop, name, rel, expect):
         drop(d)
 
 def run_one(prop, name):
-    base = os.path.join(VERIF, "mutants", prop, name)
-    meta = json.load(open(base + ".json"))
+    if name.startswith("seed:"):
+        sd = os.path.join(VERIF, "seeded", name[5:])
+        meta = {"expect_rule": "*"}
+        base = None
+        patch = os.path.join(sd, "patch.diff")
+    else:
+        base = os.path.join(VERIF, "mutants", prop, name)
+        meta = json.load(open(base + ".json"))
+        patch = base + ".diff"
     d = scratch()
     try:
-        r = subprocess.run(["git", "-C", d, "apply", base + ".diff"], env=ENV, stdout=subprocess.PIPE, stderr=subprocess.STDOUT, text=True)
+        r = subprocess.run(["git", "-C", d, "apply", patch], env=ENV, stdout=subprocess.PIPE, stderr=subprocess.STDOUT, text=True)
         if r.returncode != 0:
             return (prop, name, "SKIPPED", "patch no longer applies", [])
         r = sh(["go", "build", "./..."], cwd=d, check=False)
@@ -115,6 +122,17 @@ def cmd_run(args):
         for f in sorted(os.listdir(os.path.join(root, prop))):
             if f.endswith(".diff"):
                 jobs.append((prop, f[:-5]))
+    # independently written seeds of the same properties (any rule of the property's own check counts)
+    sroot = os.path.join(VERIF, "seeded")
+    if os.path.isdir(sroot):
+        for sd in sorted(os.listdir(sroot)):
+            mp = os.path.join(sroot, sd, "meta.json")
+            if not os.path.exists(mp):
+                continue
+            sp = json.load(open(mp))["property"]
+            if props and sp not in props:
+                continue
+            jobs.append((sp, "seed:" + sd))
     res = []
     with concurrent.futures.ThreadPoolExecutor(max_workers=j) as ex:
         for r in ex.map(lambda a: run_one(*a), jobs):
